@@ -469,6 +469,15 @@ def handle (line : String) : String :=
         | none => "ok"
         | some k => s!"specfail mux-{k}-while-a-child-unregisters counts={counts} leaving={leave}"
     | _, _, _ => "skip parse"
+  | ["muxslow", _m, "hang"] => "specfail mux-delivery-hangs-with-a-busy-child"
+  | ["muxslow", m, counts] =>
+    -- a child that is busy for a long time per bundle: every child is handed every bundle of the burst, once
+    match m.toNat?, (counts.splitOn ",").mapM (·.toNat?) with
+    | some m, some cs =>
+      if cs.all (· == m) then "ok"
+      else if cs.any (· < m) then s!"specfail mux-busy-child-missed-a-bundle burst={m} counts={counts}"
+      else s!"specfail mux-busy-child-duplicate burst={m} counts={counts}"
+    | _, _ => "skip parse"
   | ["content", path, sent, recv] =>
     match parseHex sent, parseHex recv with
     | some s, some r => if s == r then "ok" else s!"specfail content-differs-{path}"
